@@ -61,7 +61,8 @@ def run(ctx):
     mid = dict(rows="{1,2,3,4,5,6}", keys='{"a","b"}', vals='{"v1","w1","nul"}')               # 54
     red = dict(rows="{1,2,3,4,5,6}", keys='{"a"}', vals='{"v1","w1","nul"}')                   # 30
     edge = dict(rows="{1,2,5,6}", keys='{"a"}', vals='{"v1","w1"}')                            # 16
-    tiny = dict(rows="{1,4,6}", keys='{"a"}', vals='{"v1"}')                                   # 9
+    edge1 = dict(rows="{1,2,5,6}", keys='{"a"}', vals='{"v1"}')                                # 12
+    tiny = dict(rows="{1,6}", keys='{"a"}', vals='{"v1"}')                                     # 6
     E = "ACTION_CONSTRAINT EmitLeaf"
 
     def gen(name, alpha, maxh):
@@ -73,9 +74,9 @@ def run(ctx):
         runs = [("mid2", gen("allseq2-mid", mid, 2), SC_QUICK),
                 ("edge3", gen("allseq3-edge", edge, 3), ["dense-int-break", "sparse-str-near"])]
     else:
-        runs = [("full2", gen("allseq2-full", full, 2), SC_FULL),
-                ("red3", gen("allseq3-reduced", red, 3), SC_QUICK),
-                ("edge4", gen("allseq4-edge", edge, 4), ["dense-int-break", "sparse-str-near"]),
+        runs = [("full2", gen("allseq2-full", full, 2), SC_FULL[::3]),
+                ("red3", gen("allseq3-reduced", red, 3), ["dense-int-break", "sparse-str-near"]),
+                ("edge4", gen("allseq4-edge", edge1, 4), ["dense-float-break", "gappy-int-near"]),
                 ("tiny5", gen("allseq5-tiny", tiny, 5), ["dense-int-near", "dense-bool-break", "sparse-int-near", "gappy-str-break"])]
     ctx.assume("rows are instantiated from six classes per pre-built column (base-1, base, mid, top, top+1, far / the break-even rows of "
                "dense_is_smaller); values from {same type, the type's default, other primitive type, DateTime, Null}",
